@@ -182,7 +182,7 @@ func init() {
 }
 
 func C04(r *eng.Run) {
-	r.Rule = "bounded-exhaustive pairs: coefficient shapes K x K x exponent gaps x 4 sign combinations (both argument orders arise in the product), " +
+	r.Rule = "bounded-exhaustive pairs: coefficient shapes K x K x exponent gaps x 4 sign combinations (both argument orders arise in the product), every leading-digit prefix and word-threshold coefficient against a reduced alphabet, " +
 		"arm-targeted near-equality (K at exponent q+g against K*10^g + delta at q for every gap g<=35 and delta in {0, +-1, +-10^j (j<g), 5*10^(g-1)}) at mid-range and both range ends, " +
 		"special/zero operand table, predicates IsZero/Sign on every operand, and all triples of a 70-value set for transitivity; oracle = sign of the exact difference. " +
 		"Cell = (family, exact order, relation of digit counts); non-trivial = operands with different exponents whose order is decided by digits, or equal values in different cohorts."
